@@ -677,6 +677,14 @@ pub fn giant_records(key: &RefKey) -> Vec<(&'static str, Vec<u8>)> {
             }
         }
     }
+    // oversized AND deeply nested: a signed record whose custom value is a list nested thousands of levels deep, and
+    // the bare nest as the whole input (whatever walks the structure before the size check must not recurse)
+    for depth in [2_000u32, 20_000, 100_000, 400_000] {
+        let mut rec = Rec::minimal(*key, 1);
+        rec.map.insert(b"nest".to_vec(), Item::R(rlp::nested_lists(depth)));
+        out.push(("size-giant-nested", rec.bytes()));
+        out.push(("nested-input", rlp::nested_lists(depth)));
+    }
     out
 }
 
